@@ -52,7 +52,7 @@ func profileFor(prop, tier string) *Profile {
 		StepLimit: 1500, TablesMin: 1, TablesMax: 3, WritersMin: 1, WritersMax: 3,
 		TxnsMin: 2, TxnsMax: 5, OpsMin: 1, OpsMax: 6, MinTxnTables: 1,
 		ReadsMin: 3, ReadsMax: 8, WatchesMin: 2, WatchesMax: 6, NextsMin: 4, NextsMax: 10,
-		OpWeights: weights(map[int]int{OpInsert: 30, OpInsertWatch: 3, OpModify: 12, OpDelete: 15, OpDeleteAll: 2, OpCAS: 6, OpCAD: 6, OpReadBack: 6}),
+		OpWeights: weights(map[int]int{OpInsert: 30, OpInsertWatch: 3, OpModify: 12, OpDelete: 15, OpDeleteAll: 2, OpCAS: 6, OpCAD: 6, OpReadBack: 6, OpBurst: 3}),
 		IndexPct:  50, AbortPct: 20, FinishedPct: 0, BatteryQueries: 10, FinalQueries: 40, ReadProp: "C04",
 		PausePoints: append(append([]string{}, commitPoints...), writePoints...),
 		Probes:      20,
@@ -67,6 +67,7 @@ func profileFor(prop, tier string) *Profile {
 	}
 	switch prop {
 	case "C01":
+		p.OpWeights[OpBurst] = 6
 		p.ReadersMin, p.ReadersMax = 1, 3
 		p.RetainWeight = 4
 		p.ReadProp = "C04"
@@ -104,6 +105,7 @@ func profileFor(prop, tier string) *Profile {
 		p.CommitCheck = true
 		p.TablesMin = 1
 	case "C04":
+		p.OpWeights[OpBurst] = 6
 		p.IndexPct = 80
 		p.WritersMax = 2
 		p.ReadersMin, p.ReadersMax = 1, 2
@@ -125,6 +127,8 @@ func profileFor(prop, tier string) *Profile {
 		p.BatteryQueries = 4
 		p.ReadProp = "C05"
 	case "C06":
+		p.OpWeights[OpBurst] = 8
+		p.WatchesMin, p.WatchesMax = 3, 10
 		p.WatchersMin, p.WatchersMax = 1, 3
 		p.WritersMin, p.WritersMax = 1, 3
 		p.IndexPct = 65
